@@ -12,6 +12,11 @@ import (
 
 func ptrKey(p *Pointer) string { return fmt.Sprintf("%d%v", p.Obj.ID, p.Path) }
 
+func isEmptyIface(t types.Type) bool {
+	it, ok := t.Underlying().(*types.Interface)
+	return ok && it.NumMethods() == 0
+}
+
 func unwrapAny(v Value) Value {
 	if iv, ok := v.(*IfaceV); ok && iv != nil && iv.T != nil {
 		return iv.V
@@ -35,7 +40,7 @@ func (e *Engine) lookupIntrinsic(fn *ssa.Function) intrinsicFn {
 	if hf, ok := e.over[name]; ok {
 		return func(x *Exec, _ *ssa.Function, a []Value) Value { return x.call(hf, a, nil) }
 	}
-	if fn.Pkg != nil && strings.HasPrefix(fn.Pkg.Pkg.Path(), e.modPath) && len(short) > 1 && short[0] == 'v' && short[1] >= 'A' && short[1] <= 'Z' {
+	if p := fnPkg(fn); p != nil && strings.HasPrefix(p.Pkg.Path(), e.modPath) && len(short) > 1 && short[0] == 'v' && short[1] >= 'A' && short[1] <= 'Z' {
 		if h := harnessIntrinsic(short); h != nil {
 			return h
 		}
@@ -335,6 +340,28 @@ func harnessIntrinsic(short string) intrinsicFn {
 		}
 	case "vDuration":
 		return func(x *Exec, f *ssa.Function, a []Value) Value { return a[0] }
+	case "vJSONOf":
+		// vJSONOf(data): the value whose uninterpreted JSON encoding data is (nil if data is not such a token)
+		return func(x *Exec, _ *ssa.Function, a []Value) Value {
+			var sv Value
+			switch d := a[0].(type) {
+			case *SliceV:
+				if d != nil {
+					sv = &StrV{B: x.bytesOf(d)}
+				}
+			default:
+				sv = d
+			}
+			if ti := x.tokenOf(sv); ti != nil && ti.kind == "json" {
+				return ti.arg
+			}
+			return (*IfaceV)(nil)
+		}
+	case "vJSON":
+		// vJSON(v): the uninterpreted JSON encoding of v as []byte
+		return func(x *Exec, _ *ssa.Function, a []Value) Value {
+			return x.byteSlice(x.newToken("json", a[0]).B)
+		}
 	case "vEncode":
 		// vEncode(kind, s): uninterpreted encoder; the result is an opaque token remembering s
 		return func(x *Exec, _ *ssa.Function, a []Value) Value {
@@ -1045,6 +1072,46 @@ func stdIntrinsic(name string, fn *ssa.Function) intrinsicFn {
 	case "time.Now":
 		return func(x *Exec, f *ssa.Function, a []Value) Value {
 			return x.timeNow(f.Signature.Results().At(0).Type())
+		}
+	case "encoding/json.Marshal", "github.com/modelcontextprotocol/go-sdk/internal/json.Marshal", "github.com/segmentio/encoding/json.Marshal":
+		// uninterpreted encoder: one opaque token element remembering the (interface) value
+		return func(x *Exec, _ *ssa.Function, a []Value) Value {
+			t := x.newToken("json", a[0])
+			return tup(x.byteSlice(t.B), nilErr)
+		}
+	case "encoding/json.Unmarshal", "github.com/modelcontextprotocol/go-sdk/internal/json.Unmarshal", "github.com/segmentio/encoding/json.Unmarshal":
+		return func(x *Exec, _ *ssa.Function, a []Value) Value {
+			var sv Value
+			if s, _ := a[0].(*SliceV); s != nil {
+				sv = &StrV{B: x.bytesOf(s)}
+			}
+			ti := x.tokenOf(sv)
+			if ti == nil || ti.kind != "json" {
+				x.abort("UNSUPPORTED", "json.Unmarshal of non-token data (JSON text layer is outside the engine)")
+			}
+			dst, _ := a[1].(*IfaceV)
+			src, _ := ti.arg.(*IfaceV)
+			if dst == nil || src == nil {
+				return x.newErr("json: Unmarshal(nil)")
+			}
+			pt, ok := dst.T.(*types.Pointer)
+			if !ok {
+				return x.newErr("json: Unmarshal(non-pointer)")
+			}
+			p := dst.V.(*Pointer)
+			switch {
+			case types.Identical(pt.Elem(), src.T):
+				x.store(p, src.V)
+			case isEmptyIface(pt.Elem()):
+				x.store(p, src)
+			default:
+				if sp, isPtr := src.T.(*types.Pointer); isPtr && types.Identical(pt.Elem(), sp.Elem()) && src.V.(*Pointer) != nil {
+					x.store(p, x.load(src.V.(*Pointer)))
+				} else {
+					return x.newErr("json: cannot unmarshal into " + pt.Elem().String())
+				}
+			}
+			return nilErr
 		}
 	case "os.Getenv":
 		return func(x *Exec, _ *ssa.Function, a []Value) Value { return mkStr("") }
